@@ -456,10 +456,10 @@ def validate(run, subdir, module, constants, segments, clauses, plans=None, max_
     t0 = time.time()
     # chunking
     if chunk_events is None:
-        chunk_events = max(400, sum(len(s) for s in segments) // 8 + 1)
+        chunk_events = max(400, sum(len(s) for s in segments) // 14 + 1)
     # TLC cannot handle behaviours of 65536 or more states once its queue spills to disk: keep every trace file well below that
     # (validators with silent steps take several states per trace line)
-    chunk_events = min(chunk_events, 15000)
+    chunk_events = min(chunk_events, 25000)
     chunks, cur, n = [], [], 0
     for i, s in enumerate(segments):
         if cur and n + len(s) > chunk_events:
@@ -501,7 +501,7 @@ def validate(run, subdir, module, constants, segments, clauses, plans=None, max_
                 return
             todo = todo[j + 1:]
 
-    with ThreadPoolExecutor(max_workers=max(1, min(NCPU // 2, len(chunks) or 1))) as ex:
+    with ThreadPoolExecutor(max_workers=max(1, min(NCPU - 2, len(chunks) or 1))) as ex:
         list(ex.map(do_chunk, chunks))
     # diagnose
     for seg_i, off in sorted(rejs)[:max_rej]:
